@@ -538,8 +538,12 @@ def r2(ctx, chk):
     # hash of the literal
     fh = None
     for n in iter_own_nodes(m.toplevel.node):
-        if isinstance(n, ast.Assign) and ast.unparse(n.targets[0]) == "current_hash" and isinstance(n.value, ast.Call):
-            fh = " ".join(ast.unparse(n.value).split())
+        if isinstance(n, ast.Assign) and ast.unparse(n.targets[0]) == "current_hash":
+            # `current_hash = <hash>` under a test, or `current_hash = <hash> if <test> else None`
+            cands = [n.value] if isinstance(n.value, ast.Call) else [x for x in (n.value.body, n.value.orelse) if isinstance(x, ast.Call)] \
+                if isinstance(n.value, ast.IfExp) else []
+            if len(cands) == 1:
+                fh = " ".join(ast.unparse(cands[0]).split())
     if fh != "zlib.crc32(str(timezone_info_list).encode('utf-8'))":
         raise AnalysisError(rule, "hash expression changed: %s" % fh)
     want_h = zlib.crc32(str(tl).encode("utf-8"))
